@@ -44,15 +44,15 @@ type Sched struct {
 	pendingTick time.Duration
 	Ticks       uint64
 
-	Events    uint64 // global event counter
-	Yields    uint64
-	Decisions uint64
-	Switches  uint64
-	MaxYields uint64 // budget per Run call
-	runYields uint64
-	aborting  bool
-	AbortWhy  string
-	Deadlock  bool
+	Events       uint64 // global event counter
+	Yields       uint64
+	Decisions    uint64
+	Switches     uint64
+	MaxYields    uint64 // budget per Run call
+	runYields    uint64
+	aborting     bool
+	AbortWhy     string
+	Deadlock     bool
 	DeadlockInfo string
 
 	Cover []uint32 // per-site hit counters
